@@ -775,13 +775,11 @@ func (w *Worker) assertObl(c *Term, msg string) {
 	}
 }
 
-func (w *Worker) smallModel(as []*Term) Model {
+// smallBox constrains every real input to an integer in [-4,4].
+func (w *Worker) smallBox() []*Term {
 	var extra []*Term
-	n := 0
 	for _, in := range w.inputs {
 		if in.T.Sort.K == SReal {
-			n++
-			// integer in [-4,4]
 			var alts []*Term
 			for k := -4; k <= 4; k++ {
 				alts = append(alts, w.tt.Eq(in.T, w.tt.Real(float64(k))))
@@ -789,7 +787,12 @@ func (w *Worker) smallModel(as []*Term) Model {
 			extra = append(extra, w.tt.Or(alts...))
 		}
 	}
-	if n == 0 {
+	return extra
+}
+
+func (w *Worker) smallModel(as []*Term) Model {
+	extra := w.smallBox()
+	if len(extra) == 0 {
 		return nil
 	}
 	res, m := w.solver.Check(append(append([]*Term(nil), as...), extra...), w.inputTerms())
@@ -921,7 +924,16 @@ func (w *Worker) maybeWitness() {
 		}
 	}
 	want := append(w.inputTerms(), obsTerms...)
-	res, m := w.solver.Check(w.pc, want)
+	// prefer small integers for real inputs: the native run is then exact
+	// (a model with values like 1/3 makes a float32 kernel differ from its
+	// float64-evaluated oracle by a rounding, which is not a translator error)
+	res, m := "", Model(nil)
+	if extra := w.smallBox(); extra != nil {
+		res, m = w.solver.Check(append(append([]*Term(nil), w.pc...), extra...), want)
+	}
+	if res != "sat" || m == nil {
+		res, m = w.solver.Check(w.pc, want)
+	}
 	if res != "sat" || m == nil {
 		return
 	}
